@@ -14,7 +14,7 @@ from fractions import Fraction
 
 import numpy as np
 
-from ..ref import KV
+from ..ref import KV, Poly
 from .. import fam, kmode
 from .c01 import make_points
 from .c03 import GAP
@@ -72,6 +72,14 @@ def configs(tier, seed):
         for meth in FAMILIES:
             cfgs.append(dict(name=f"scalar K p={p} mults={pat} vals={[str(v) for v in vals]} {meth}", kind="scalarM", p=p, mults=pat,
                              vals=[str(v) for v in vals], method=meth, dim=0))
+    # a weight function g: the integral of g(u) C(u), g a polynomial with symbolic coefficients, rule large enough to be exact
+    for i, (p, pat) in enumerate(famy):
+        if p > 2 or len(pat) > 3 + (tier != "quick"):
+            continue
+        vals = fam.concrete_values(len(pat), seed + 3, i)
+        for meth in ("open-newton-cotes", "closed-newton-cotes"):
+            cfgs.append(dict(name=f"scalar K p={p} mults={pat} vals={[str(v) for v in vals]} {meth} with weight function", kind="scalarG",
+                             p=p, mults=pat, vals=[str(v) for v in vals], method=meth, dim=0))
     for nn in (1, 2, 3, 4):
         for meth in ("open-newton-cotes", "closed-newton-cotes"):
             if meth == "closed-newton-cotes" and nn < 2:
@@ -230,6 +238,21 @@ def body(env, cfg):
 
     if kind == "memo":
         _memo(env, cfg)
+        return
+
+    if kind == "scalarG":
+        p, mults = cfg["p"], cfg["mults"]
+        kv = KV([F(v) for v in cfg["vals"]], mults)
+        P = make_points(env, "P", kv.n, 0)
+        g = env.reals("g", 2)
+        curve = Curve(list(kv.U), P)
+        got = Integrate.scalar(curve, lambda u: g[0] + g[1] * u, cfg["method"], p + 2)
+        want = 0
+        for d in range(kv.nint):
+            a, b = kv.vals[d], kv.vals[d + 1]
+            piece = kmode.piece(kv, P, d)                     # polynomial of degree p in u
+            want = want + (piece * Poly([g[0], g[1]])).integral(a, b)
+        env.eq(f"Integrate.scalar(curve, g, {cfg['method']}, p+2) == integral of g(u) C(u)", got, want)
         return
 
     if kind == "scalarM":
